@@ -143,8 +143,15 @@ func runPluginInstall() int {
 			}
 		}
 		// the source
-		src := filepath.Join(caseDir, "src", "d")
+		// (its name may contain characters that mean something to whoever matches patterns - a directory is named what it is named;
+		// next to it stands a directory such a pattern would match, holding a newer plugin p that nobody asked to install)
+		srcNames := [][2]string{{"d", ""}, {"release[2]", "release2"}, {"notation-p[v2]", "notation-pv"}, {"a*b", "aXYb"}, {"wh?t", "what"}, {"d d", ""}, {"[d]", "d"}}
+		sn := srcNames[mix(*flagSeed, c.ID, "srcname")%uint32(len(srcNames))]
+		src := filepath.Join(caseDir, "src", sn[0])
 		must(os.MkdirAll(src, 0755))
+		if sn[1] != "" {
+			writeExec(filepath.Join(caseDir, "src", sn[1], "notation-p"), installScript(marker, "p", "99.9.9", "ok", "sibling"))
+		}
 		srcVer := verString(in.Src.Ver, salt+1)
 		// permission bits of the source files, by seed: what 0755 lets through is kept by the installed copy
 		srcModes := map[string]os.FileMode{}
@@ -188,6 +195,14 @@ func runPluginInstall() int {
 					srcModes[f] = 0660 // (these are the NON-executable files of the plugin file-name format)
 				}
 				must(os.WriteFile(filepath.Join(src, extraFile[f]), []byte("extra # origin: src\n"), srcModes[f]))
+				if mix(*flagSeed, c.ID, "big"+f)%48 == 0 {
+					// a LARGE data file (a bundled library, a model): a hole of 64 MiB and a bit, then the content
+					fh, err := os.OpenFile(filepath.Join(src, extraFile[f]), os.O_WRONLY|os.O_TRUNC, 0)
+					must(err)
+					_, err = fh.WriteAt([]byte("extra # origin: src\n"), 64<<20+4096)
+					must(err)
+					must(fh.Close())
+				}
 				must(os.Chmod(filepath.Join(src, extraFile[f]), srcModes[f])) // (WriteFile's mode is subject to the umask)
 			}
 		}
